@@ -777,6 +777,19 @@ def evaluate(term, tally):
         return None
     tally.compared += 1
     bad = compare(res, mv)
+    if bad is not None and bad[0] == "type" and term.fam == "np_axes":
+        # numpy axis permutations / stacking that displace the (element, Gauss point) axes are not per-(e,p) tensor
+        # operations: the property does not say how their result is typed; only the values and the shape are compared
+        bad = None
+        a_, r_ = np.asarray(res), np.asarray(mv.a)
+        if a_.shape != r_.shape:
+            bad = ("shape", f"result shape {a_.shape}, model shape {r_.shape}")
+        elif a_.dtype.kind in "fc" and r_.size and np.max(np.abs(a_ - r_)) > 1e-12 * max(np.max(np.abs(r_)), 1e-300):
+            bad = ("value", "values differ from the permuted / stacked model array")
+        if bad is None:
+            tally.count("ok_typing_not_specified")
+            tally.h.update(b"T" + str(a_.shape).encode())
+            return None  # not expanded to depth 2: model and implementation disagree on a typing the property leaves open
     if bad is not None:
         tally.count("violation")
         tally.add_viol(bad[0], term, bad[1])
